@@ -28,7 +28,7 @@ SigmaCore == {"UNION", "DECART", "IN", "EQUAL", "AND", "NOT", "FORALL", "BOOLEAN
               "ASSIGN", "ITERATE", "DEFINE", "STRUCT", "BIGPR@1", "FILTER@1", "(", ")", "{", "}", "[", "]", "|", ",", ";",
               "$X1", "$S1", "$F1", "$P1", "$A1", "$a", "#1", "#2147483648", "EMPTY", "INTSET", "~80", "~F09F", "~00"}
 Sigma == IF SeqAlphabet = "full" THEN SigmaFull ELSE SigmaCore
-EditTokens == {"(", ")", "{", "}", "|", ",", "UNION", "IN", "AND", "NOT", "$X1", "$a", "$A1", "#1", "EMPTY", "DEFINE", "ASSIGN", "~80", "~00"}
+EditTokens == {"(", ")", "{", "}", "|", ",", "UNION", "IN", "AND", "NOT", "$X1", "$a", "$A1", "#1", "EMPTY", "DEFINE", "ASSIGN", "~80", "~00", "SMALLPR@0", "BIGPR@0,0"}
 
 \* schema documents for the JSON entry points: one field of one record (0 = the document itself) damaged in one way
 JFields == {"items", "type", "title", "alias", "comment", "entityUID", "cstType", "convention", "term", "definition", "formal", "raw", "resolved", "forms", "text"}
@@ -47,6 +47,10 @@ Init4 == \/ mode = "seq" /\ stage = 0 /\ toks = <<>> /\ fam = "none" /\ c = X(1)
          \/ /\ mode = "json" /\ stage = 0 /\ fam = "none" /\ c = X(1)
             /\ \E item \in 0..8, f \in JFields, m \in JMuts : toks = <<ToString(item), f, m>>
          \/ mode = "edit" /\ stage = 1 /\ fam = "none" /\ c \in EditPool /\ toks = Render(c, 0).t
+         \* one construct nested n times: within the parser's documented depth limit every later pass must cope with the tree,
+         \* beyond it the input must be refused with an error (the harness expands <<construct, n>> into the text)
+         \/ /\ mode = "deep" /\ stage = 0 /\ fam = "none" /\ c = X(1)
+            /\ \E op \in {"BOOLEAN", "PAREN", "NOT", "ENUM", "SMALLPR", "TUPLE", "REF", "QUANT"} : \E n \in {1500, 2500, IF op \in {"SMALLPR", "TUPLE", "QUANT"} THEN 30000 ELSE 150000} : toks = <<op, ToString(n)>>
 Next4 ==
   \/ /\ mode = "seq" /\ Len(toks) < MaxSeq /\ \E s \in Sigma : toks' = Append(toks, s)
      /\ UNCHANGED <<mode, stage, fam, c>>
@@ -57,7 +61,7 @@ Next4 ==
         \/ \E i \in 1..Len(toks) : toks' = SubSeq(toks, 1, i) \o SubSeq(toks, i, Len(toks))                          \* duplicate
         \/ \E i \in 1..(Len(toks) - 1) : toks' = [toks EXCEPT ![i] = toks[i + 1], ![i + 1] = toks[i]]                \* transpose
 Spec4 == Init4 /\ [][Next4]_v4
-Emit4 == PrintT(<<"CASE", ToJson([kind |-> IF mode = "json" THEN "json" ELSE "toks", toks |-> toks])>>)
+Emit4 == PrintT(<<"CASE", ToJson([kind |-> IF mode = "json" THEN "json" ELSE IF mode = "deep" THEN "deep" ELSE "toks", toks |-> toks])>>)
 
 \* The postcondition of C04 for one call (the recorded event carries what the call returned / logged):
 \*   ev.returned : the call came back (no fault), ev.ok : it reported success,
